@@ -209,7 +209,12 @@ class Loader(yaml.SafeLoader):
                                 ' function.').format(node.start_mark))
                     cnode = Node(node)
                     if cnode.has_attribute(attr_name):
-                        subnode = cnode.get_attribute(attr_name)
+                        try:
+                            subnode = cnode.get_attribute(attr_name)
+                        except SeasoningError:
+                            raise RecognitionError((
+                                    '{}\nFound the key "{}" more than once'
+                                    ).format(node.start_mark, attr_name))
                         new_subnode = self.__process_node(
                             subnode.yaml_node, type_)
                         cnode.set_attribute(attr_name, new_subnode)
